@@ -216,7 +216,8 @@ class CallGraph:
                 continue
             self.resolved += 1
             for t in tgts:
-                edges.append((t.fq, c))
+                if t.fq in self.funcs:
+                    edges.append((t.fq, c))
         self.edges[f.fq] = edges
 
     def _callable_targets(self, e: ast.AST, f: FuncInfo, local) -> List[FuncInfo]:
